@@ -34,6 +34,27 @@ CLAIMED = {
  "C16": ("In situ: every RttEstimator sample/timeout of every connection (hook H5): 200 ms <= RTO <= 60 s, RTO == clamp(srtt + max(4 rttvar, 10 ms)) after a sample, doubling on timeout, srtt within [min,max] of samples; extremes via 0-latency nets, multi-second delays, suspend jumps, back-off chains to the 60 s cap.",
          TRUST + "Only sample sequences reachable through a connection are explored.",
          SIM + ": invariants over estimator events recorded inside simulated connections", "DESIGN.md §3 C16"),
+ "C04": ("Scripted raw-uTP peer as sender (independent codec) against one real endpoint: in-window data in arbitrary order / duplicated / overlapping, tiny receive buffers, slow readers, mid-stream FIN, hostile sequence numbers; oracles over every datagram the endpoint emits: ack_nr is the in-order prefix, SACK bits only for packets it holds, advertised window never exceeds free buffer space and never shrinks below data already invited, bytes handed to read equal the in-order stream exactly once.",
+         TRUST + "The scripted peer and its receive-buffer model are the reference. Known findings F13 (window ignores a partially read message) and F14 (SACK bits shifted after a mid-stream FIN).",
+         SIM + ": scripted-peer histories, wire oracle against a reference receiver model", "DESIGN.md §3 C04"),
+ "C05": ("Scripted raw-uTP peer as receiver producing seeded ACK/window histories (growing, shrinking, zero, re-opening, withheld, stale, selective); oracle at every first transmission of a sequence number: outstanding bytes <= window most recently advertised, nothing new into a zero window, <= 2 segments + acked bytes before the first loss event, one segment after an RTO until new data is acknowledged.",
+         TRUST + "Loss-recovery polls are exempt as the property states. Known finding F15 (the retransmission-timer path transmits a never-sent segment regardless of the window).",
+         SIM + ": scripted-peer ACK/window histories, wire oracle on first transmissions", "DESIGN.md §3 C05"),
+ "C06": ("Scripted receiver with loss, withheld / duplicate / selective / stale ACKs, plus passive clauses on lossy duplex runs; oracles: timeout retransmission not before the minimum RTO after the timer can last have been (re)started, doubling gaps within 200 ms..60 s, fast retransmit at the third duplicate ACK or SACK evidence (outside timeout recovery), retransmission cap ends the connection with an application-visible error, nothing acknowledged is re-emitted, stable bytes per sequence number (only a never-acknowledged probe is re-cut, with a consistent prefix).",
+         TRUST + "Which emissions are timeout retransmissions is read from the end-of-poll snapshot (hook H2). A segment larger than the link's smallest segment size is treated as a possible probe. Known findings F1, F15.",
+         SIM + ": scripted-peer loss/ACK histories, wire + timing oracle", "DESIGN.md §3 C06"),
+ "C07": ("Paced compliant scripted sender (one datagram per virtual instant, no back-pressure) with seeded gaps, duplicates, reordering, FIN, reader stalls; oracles: every in-order packet is acknowledged within 40 ms, immediately on a duplicate / out-of-order / gap-filling packet, two full segments or FIN, no ST_STATE without something new to say, a re-opened zero window is announced at once.",
+         TRUST + "Timing clauses are judged only in the paced family where 'same instant' is unambiguous.",
+         SIM + ": scripted-peer paced histories, timing oracle on emitted ACKs", "DESIGN.md §3 C07"),
+ "C17": ("Scripted peer in both roles drives every teardown and handshake corner (SYN-ACK retry and give-up, FIN before/after data, simultaneous close, FIN loss, RESET in every state, duplicate SYN, data after FIN, hostile acknowledgement numbers) plus duplex close races; oracles over wire + API + end-of-poll state: legal state sequence, SYN-ACK retries bounded, FIN only after all data was sent and numbered after it, FIN acknowledged only in sequence, RESET surfaces as an error and silences the endpoint, LastAck waits (or not) as configured.",
+         TRUST + "Rules that need a well-behaved peer are gated on the script not being hostile.",
+         SIM + ": scripted-peer teardown histories, state-sequence oracle", "DESIGN.md §3 C17"),
+ "C18": ("Scripted receiver with seeded ACK timing and windows against seeded small-write patterns, both Nagle settings; oracles: (on) no first transmission smaller than the usable segment size while earlier data is un-acknowledged unless the window limits it, held bytes leave at the instant the pipe drains; (off) nothing stays un-segmented at the end of a poll unless window / congestion control / a probe / recovery holds it.",
+         TRUST + "Usable segment size = min(what the wire proves, the sender's own segment size from hook H2). Known finding F21 (segments pre-cut to a stale window).",
+         SIM + ": scripted-peer ACK timing, wire oracle on first-transmission sizes", "DESIGN.md §3 C18"),
+ "C19": ("Scripted receiver that acknowledges slowly, in bursts, selectively or not at all, against writers with seeded initial/maximum transmit-buffer sizes (tiny rings, growth steps, wrapped rings); oracles: accepted - acknowledged bytes <= max(initial, maximum), ring capacity <= limit, a blocked write completes at the instant an ACK frees space, every payload byte on the wire equals the written stream at its offset (growth keeps order).",
+         TRUST + "Acknowledged = longest cumulatively-or-selectively acknowledged prefix (what a ring can release). Known finding F1.",
+         SIM + ": scripted-peer ACK schedules, conservation oracle accepted/acked/wire bytes", "DESIGN.md §3 C19"),
 }
 NOT_APPLICABLE = {}
 
